@@ -103,6 +103,7 @@ func registerVF() {
 		if !c.ex.Known[id] {
 			return nil
 		}
+		c.flushAsserts()
 		t, _ := termOf(args[1])
 		if old, ok := c.knownAct[id]; ok {
 			t = mkOr(old, t)
@@ -111,6 +112,7 @@ func registerVF() {
 		return nil
 	}
 	externals[vfPkg+".KnownClear"] = func(fr *frame, args []value) value {
+		fr.i.ctx.flushAsserts()
 		delete(fr.i.ctx.knownAct, argStr(args[0]))
 		return nil
 	}
